@@ -160,7 +160,7 @@ func (o *rx) Evaluate(tx plugintypes.TransactionState, value string) bool {
 		// match[2*i+1] is the end index for capture group i. Group 0 is
 		// the full match, groups 1..N are the parenthesized sub-expressions.
 		for i := 0; i < len(match)/2; i++ {
-			if i == 9 {
+			if i == 10 { // TX.0 - TX.9: the whole match and the first nine groups
 				return true
 			}
 			// A negative start index means the group did not participate in the match
@@ -202,7 +202,7 @@ func (o *binaryRX) Evaluate(tx plugintypes.TransactionState, value string) bool 
 			return false
 		}
 		for i, c := range match {
-			if i == 9 {
+			if i == 10 { // TX.0 - TX.9: the whole match and the first nine groups
 				return true
 			}
 			tx.CaptureField(i, c)
